@@ -5,7 +5,7 @@ import json,sys
 for l in open(sys.argv[1]):
     l=l.rstrip('\n')
     if not l: continue
-    sid,what,missed=l.split('\t')
+    sid,what,missed=l.split('\t')[:3]
     m=json.load(open('/verif/seeded/%s/meta.json'%sid))
     cr=m.get('check_run',{})
     keys=cr.get('violation_keys',[])[:2]
